@@ -7,7 +7,7 @@ d = os.path.join(VERIF, "seeded", sid); os.makedirs(d, exist_ok=True)
 # regenerate the patch from the worktree so that it is exactly what was tested
 patch = subprocess.run(["git", "-C", wt, "diff", "--", "cola"], capture_output=True, text=True).stdout
 open(os.path.join(d, "patch.diff"), "w").write(patch)
-for f in ["demo.cpp", "README.md", "confirm.log"]:
+for f in ["demo.cpp", "build_demo.sh", "README.md", "confirm.log"]:
     if os.path.exists(os.path.join(wt, "SEED", f)):
         shutil.copy(os.path.join(wt, "SEED", f), os.path.join(d, f))
 confirm = open(os.path.join(d, "confirm.log")).read() if os.path.exists(os.path.join(d, "confirm.log")) else ""
